@@ -15,9 +15,11 @@ git -C /repo worktree add -q --detach "$wt" HEAD || exit 2
 cleanup() { git -C /repo worktree remove --force "$wt" 2>/dev/null; rm -rf "$wt"; }
 trap cleanup EXIT
 cp "$d/demo_test.go" "$wt/$place/zz_demo_seed_test.go"
-(cd "$wt/$place" && go test -vet=off -count=1 . >/tmp/ev/out1.$$ 2>&1); without=$?
+names=$(grep -oE '^func (Test|Example)[A-Za-z0-9_]*' "$d/demo_test.go" | sed 's/^func //' | paste -sd'|')
+# only the demo's own tests: the library's tests leave package globals (Formatter/Parser stubs) installed
+(cd "$wt/$place" && timeout 300 go test -vet=off -count=1 -run "^($names)\$" . >/tmp/ev/out1.$$ 2>&1); without=$?
 if ! git -C "$wt" apply "$d/patch.diff"; then echo "RESULT $d patch_does_not_apply"; exit 2; fi
-(cd "$wt/$place" && go test -vet=off -count=1 . >/tmp/ev/out2.$$ 2>&1); with=$?
+(cd "$wt/$place" && timeout 300 go test -vet=off -count=1 -run "^($names)\$" . >/tmp/ev/out2.$$ 2>&1); with=$?
 rm -f "$wt/$place/zz_demo_seed_test.go"
 (cd "$wt" && go test -vet=off -count=1 ./... >/tmp/ev/out3.$$ 2>&1); suite=$?
 echo "CONFIRM $d demo_without_change_exit=$without demo_with_change_exit=$with suite_with_change_exit=$suite"
